@@ -321,10 +321,32 @@ def ic_stage(out, name, prop, kinds, alpha, maxops, ghost, extend=True, **kw):
     return stage_edges(out, name, "ICMC.tla", c, IC_INV, IC_PROPS, "ic-replay", prop, **kw)
 
 
+FS_INV = ["Denote", "LenOK", "GetOK", "RegionShaped", "IndexBytesZero", "IndexCost"]
+FS_OPS_ALL = ["copy", "extend", "from_iter", "clear", "with_capacity", "merge_capacity", "reserve", "reserve_regions",
+              "clone", "clone_from", "serde"]
+
+
+def stack_names(pred=lambda e: True):
+    return {e["name"] for e in json.load(open(os.path.join(SPEC, "stacks.json"))) if pred(e)}
+
+
+def check_stacks():
+    rc, out = sh([BIN["dev"], "stacks"])
+    if rc != 0 or json.loads(out) != json.load(open(os.path.join(SPEC, "stacks.json"))):
+        raise ToolError("spec/stacks.json disagrees with the harness's FlatStack catalogue")
+
+
+def stack_stage(out, name, prop, names, maxops, ghost, dom, ops, **kw):
+    c = {"SubjectNames": set(names), "MaxOps": maxops, "MaxGhost": ghost, "DomSize": dom, "Ops": set(ops), "Emit": True,
+         "U32Limit": 2147483647}
+    return stage_edges(out, name, "FlatStackMC.tla", c, FS_INV, ["AppendOnly"], "stack-replay", prop, **kw)
+
+
 def run_property(prop, tier, seed):
     out = Outcome(prop, tier, seed)
     build_harness()
     cat = check_catalogue()
+    check_stacks()
     allnames = {e["name"] for e in cat}
     q = tier == "quick"
     out.assumptions = [
@@ -342,6 +364,8 @@ def run_property(prop, tier, seed):
         ic_stage(out, "small-deep", prop, ["opt", "list"], "small", 6 if q else 8, 0, extend=False)
         if not q:
             ic_stage(out, "big-deep", prop, ["opt", "list"], "big", 6, 0, extend=False)
+        stack_stage(out, "flatstack-dense", prop, stack_names(lambda e: e["ic"] == "opt"), 4 if q else 5, 1, 4 if q else 5,
+                    ["copy", "extend", "from_iter", "clear", "merge_capacity", "clone", "serde"])
     elif prop == "C01":
         region_stage(out, "push-clear", prop, allnames, 1, 3 if q else 4, 0, 4 if q else 5, ["push", "clear"])
         region_stage(out, "push-from", prop, subjects_where(cat, lambda e: e["caps"]["push_item"]), 2, 3, 0, 3,
@@ -358,17 +382,24 @@ def run_property(prop, tier, seed):
     elif prop == "C08":
         region_stage(out, "clear", prop, allnames, 1, 4 if q else 5, 0, 3 if q else 4, ["push", "clear"], equiv=2)
         ic_stage(out, "index-containers", prop, ["vec", "stride", "list", "opt"], "full", 4, 0)
+        stack_stage(out, "flatstack", prop, stack_names(), 4 if q else 5, 0, 3, ["copy", "extend", "clear"])
+    elif prop == "C03":
+        stack_stage(out, "flatstack", prop, stack_names(), 4 if q else 5, 1, 3 if q else 4, FS_OPS_ALL)
     elif prop == "C09":
         names = subjects_where(cat, lambda e: e["caps"]["clone"])
         region_stage(out, "clone", prop, names, 2, 4 if q else 5, 1, 3, ["push", "clear", "clone", "clone_from"])
         ic_stage(out, "index-containers", prop, ["vec", "stride", "list", "opt"], "full", 4, 1)
+        stack_stage(out, "flatstack", prop, stack_names(), 4, 1, 3, ["copy", "extend", "clear", "clone", "clone_from"])
     elif prop == "C16":
         names = subjects_where(cat, lambda e: e["caps"]["serde"] and not shape_has_f64(e["shape"]))
         region_stage(out, "serde", prop, names, 2, 4 if q else 5, 1, 3, ["push", "clear", "serde"])
         ic_stage(out, "index-containers", prop, ["vec", "stride", "list", "opt"], "full", 4, 1)
+        stack_stage(out, "flatstack", prop, stack_names(), 4, 1, 3, ["copy", "extend", "clear", "serde"])
     elif prop == "C10":
         region_stage(out, "reserve-merge", prop, allnames, 2, 4, 2 if q else 3, 3,
                      ["push", "clear", "reserve_items", "reserve_regions", "merge"])
+        stack_stage(out, "flatstack", prop, stack_names(), 4, 2, 3,
+                    ["copy", "extend", "clear", "reserve", "reserve_regions", "with_capacity", "merge_capacity"])
     elif prop == "C11":
         names = subjects_where(cat, lambda e: shape_has(e["shape"], "collapse"))
         region_stage(out, "collapse", prop, names, 2, 4 if q else 5, 1, 3 if q else 4,
@@ -386,6 +417,7 @@ def run_property(prop, tier, seed):
     elif prop == "C18":
         names = subjects_where(cat, lambda e: e["caps"]["heap"])
         region_stage(out, "heap", prop, names, 1, 4 if q else 5, 0, 3 if q else 4, ["push", "clear"])
+        stack_stage(out, "flatstack", prop, stack_names(), 4, 0, 3, ["copy", "extend", "clear", "from_iter"])
     elif prop == "C20":
         region_stage(out, "forms", prop, allnames, 2, 3 if q else 4, 0, 3, ["push", "push_from"])
     else:
